@@ -2,6 +2,7 @@ package pipeprops
 
 import (
 	"github.com/fogfish/golem/pipe/v2"
+	"github.com/fogfish/golem/pipe/v2/fork"
 
 	"verif/sim/driver"
 )
@@ -78,6 +79,20 @@ func c10Gen(r *driver.Rand, thorough bool) *driver.Plan {
 	}
 	n = min(n, c10MaxN(mon))
 	p := c10Plan(r, mon, par, n)
+	if r.Chance(1, 6) {
+		// long inputs with plain random values: hand-over or batching
+		// thresholds inside a worker
+		mon = driver.Pick(r, "sum", "sum", "prod", "max", "gcd")
+		n = driver.Pick(r, 31, 32, 33, 64, 65, 100, 129, 300)
+		par = min(par, driver.Pick(r, 1, 2, 3, 9))
+		p = c10Plan(r, mon, par, 0)
+		for i := 0; i < n; i++ {
+			p.Inputs[0] = append(p.Inputs[0], 1+r.Intn(1<<20))
+		}
+	}
+	if r.Chance(1, 6) {
+		p.SetX("boxed", 1) // elements and accumulators are pointers, Combine works in place
+	}
 	p.Cap = genCap(r)
 	if r.Chance(1, 2) {
 		k := 1 + r.Intn(4)
@@ -120,13 +135,54 @@ func c10Enum(thorough bool) []*driver.Plan {
 }
 
 type c10State struct {
-	s   *Sys
-	seq *driver.Stream[int] // pipe.Fold on the same input
+	s      *Sys
+	seq    *driver.Stream[int] // pipe.Fold on the same input
+	boxed  bool
+	boxOut *driver.Stream[*box]
+	boxSeq *driver.Stream[*box]
 }
 
 func c10Build(e *driver.Env) { driver.Phased(e, c10BuildOne, c10Final) }
 
+// box is a reference-type accumulator: Empty() allocates a fresh one and
+// Combine adds into its left operand — the way set-union or big-number monoids
+// are commonly written. Correct for pipe.Fold, hence required of fork.Fold.
+type box struct{ v int }
+
+type boxMonoid struct{ name string }
+
+func (m boxMonoid) Empty() *box { e, _ := monoidDef(m.name); return &box{v: e} }
+func (m boxMonoid) Combine(a, b *box) *box {
+	_, op := monoidDef(m.name)
+	a.v = op(a.v, b.v)
+	return a
+}
+
+func c10BuildBoxed(e *driver.Env) {
+	p := e.Plan
+	st := &c10State{boxed: true}
+	mk := func(name string) (chan *box, []*box) {
+		ch := make(chan *box, p.Cap)
+		var items []*box
+		for _, x := range p.Inputs[0] {
+			items = append(items, &box{v: x})
+		}
+		return ch, items
+	}
+	in1, items1 := mk("fork")
+	driver.Produce(e, "producer0", in1, items1, p.Producer(0))
+	st.boxOut = driver.Consume(e, "consumer.out", fork.Fold[*box](e.Ctx, p.Par, in1, boxMonoid{p.Monoid}), p.Consumer(0), nil)
+	in2, items2 := mk("seq")
+	driver.Produce(e, "producer.seq", in2, items2, driver.ProducerPlan{})
+	st.boxSeq = driver.Consume(e, "consumer.seq", pipe.Fold[*box](e.Ctx, in2, boxMonoid{p.Monoid}), driver.ConsumerPlan{Abandon: -1}, nil)
+	e.Data = st
+}
+
 func c10BuildOne(e *driver.Env) {
+	if e.Plan.X("boxed") == 1 {
+		c10BuildBoxed(e)
+		return
+	}
 	st := &c10State{s: BuildStage(e, "C10.a")}
 	// the sequential stage on the same input, in the same run
 	in2 := make(chan int, e.Plan.Cap)
@@ -137,6 +193,10 @@ func c10BuildOne(e *driver.Env) {
 
 func c10Final(e *driver.Env) {
 	st := e.Data.(*c10State)
+	if st.boxed {
+		c10FinalBoxed(e, st)
+		return
+	}
 	s := st.s
 	p := e.Plan
 	s.NoPanic("C10.d")
@@ -167,6 +227,47 @@ func c10Final(e *driver.Env) {
 		return
 	}
 	if !s.Out.Closed {
+		e.Failf("C10.d", "result channel not closed after the value", "par=%d monoid=%s", p.Par, p.Monoid)
+	}
+}
+
+func c10FinalBoxed(e *driver.Env, st *c10State) {
+	p := e.Plan
+	if ps := e.LibPanics(); len(ps) > 0 {
+		e.Failf("C10.d", "library goroutine panicked: "+ps[0].Panic, "fork.Fold (boxed): %s", driver.DescribeTasks(ps))
+		return
+	}
+	if !e.Quiescent {
+		return
+	}
+	in := p.Inputs[0]
+	want := foldModel(p.Monoid, in)
+	var got []int
+	for _, o := range st.boxOut.Got {
+		if o.V == nil {
+			got = append(got, -1<<62)
+		} else {
+			got = append(got, o.V.v)
+		}
+	}
+	if len(got) != 1 {
+		e.Failf("C10.a", "fork.Fold did not deliver exactly one value", "par=%d monoid=%s (in-place accumulators) input=%v: delivered %v", p.Par, p.Monoid, in, got)
+		return
+	}
+	if got[0] != want {
+		e.Failf("C10.b", "fork.Fold result differs from the sequential left fold (monoid with in-place accumulators)",
+			"par=%d monoid=%s input=%v: delivered %d, sequential fold from Empty() is %d", p.Par, p.Monoid, in, got[0], want)
+		return
+	}
+	if sv := st.boxSeq.Got; len(sv) != 1 || sv[0].V == nil || sv[0].V.v != want {
+		e.Failf("C10.b", "pipe.Fold result differs from the plain left fold (monoid with in-place accumulators)", "pipe.Fold delivered %d values", len(sv))
+		return
+	}
+	if alive := e.LibTasksAlive(nil); len(alive) > 0 {
+		e.Failf("C10.d", "library goroutine still alive after the result was delivered", "par=%d: %s", p.Par, driver.DescribeTasks(alive))
+		return
+	}
+	if !st.boxOut.Closed {
 		e.Failf("C10.d", "result channel not closed after the value", "par=%d monoid=%s", p.Par, p.Monoid)
 	}
 }
